@@ -13,6 +13,8 @@
 (*     delay are executed against the market's previous book, the market    *)
 (*     takes the book, the strategy is called - and may send a request for  *)
 (*     ANY market it knows (a hedge on another market of the event)         *)
+(* With Redeliver = FALSE the same machinery is driven the way an event    *)
+(* group of per-market files is (one book per message, clock monotone).     *)
 (* Times are in units of 100 ms; latencies: place 1 unit, cancel 2 units.   *)
 (* Checked (C07): a request takes effect at the first NEW update of its own *)
 (* market that lies more than the latency after the request, never on a     *)
@@ -23,7 +25,9 @@
 (***************************************************************************)
 EXTENDS Integers, Sequences, FiniteSets, TLC
 
-CONSTANTS Markets,     \* e.g. {"1.100000001", "1.100000002"}
+CONSTANTS Redeliver,   \* TRUE: one file carrying all markets (every message re-delivers the other markets' last books);
+                       \* FALSE: one file per market, merged by time into an event group (only the new book is delivered)
+          Markets,     \* e.g. {"1.100000001", "1.100000002"}
           MaxTime,     \* messages arrive at strictly increasing times <= MaxTime
           MaxReqs      \* requests the strategy sends in a run
 VARIABLES st, nreq, last
@@ -84,7 +88,7 @@ ProcBooks(s, ms, m, t, req) ==
 
 Message(m, t, req) ==
     LET s0 == IF m \in SeqToSet(st.cached) THEN st ELSE [st EXCEPT !.cached = Append(@, m)]
-    IN ProcBooks(s0, s0.cached, m, t, req)
+    IN ProcBooks(s0, IF Redeliver THEN s0.cached ELSE <<m>>, m, t, req)
 
 LastTime == LET S == {st.mpt[m] : m \in Markets} IN CHOOSE x \in S : \A y \in S : y <= x
 NewLabel == Labels[Cardinality(DOMAIN st.ord) + 1]
@@ -124,6 +128,6 @@ TypeOK == st.clock \in 0..MaxTime /\ \A o \in DOMAIN st.ord : st.ord[o].status \
 
 \* witnesses (each must be reachable)
 Reach_CrossMarketExec == ~(\E r \in Recs : \E i \in DOMAIN st.log : st.log[i] = r /\ r.book > 0 /\ r.book < r.created)   \* matched against a book older than the request
-Reach_ClockStepsBack == ~(\E m \in Markets : st.mpt[m] > 0 /\ st.clock < LastTime)
+Reach_ClockStepsBack == ~(Redeliver => \E m \in Markets : st.mpt[m] > 0 /\ st.clock < LastTime)
 Reach_CancelExecuted == ~(\E o \in DOMAIN st.ord : st.ord[o].status = "COMPLETE")
 =============================================================================
